@@ -222,8 +222,18 @@ class SlowToPrint:
     __repr__ = __str__
 
 
+def _named_like_builtin(name):
+    """A user class that merely shares its name with a built-in type (a domain 'set', a legacy 'long' ...)."""
+    def __init__(self):
+        self.members = ['m1', 'm2']
+        self.label = 'user-' + name
+    return type(name, (), {'__init__': __init__, '__module__': __name__})()
+
+
 HOSTILE = [
     ('slow_to_print', lambda r: SlowToPrint()),
+    ('user_class_named_like_builtin', lambda r: _named_like_builtin(r.pick(['set', 'list', 'tuple', 'frozenset', 'long', 'str',
+                                                                         'dict', 'int', 'generator', 'NoneType']))),
     ('bytes', lambda r: r.pick([b'', b'abc', b'\xff\xfe\x00', bytes(range(256))])),
     ('bytearray', lambda r: bytearray(b'ba\x00\xff')),
     ('datetime', lambda r: r.pick([datetime.datetime(2024, 1, 2, 3, 4, 5), datetime.date(2020, 2, 29),
